@@ -145,8 +145,11 @@ def roundtrip(h, r, module, source, feats):
     c1, c2 = C.canon(module, normalize=True), C.canon(m2, normalize=True)
     if c1 != c2:
         d = C.first_diff(c1, c2)
-        h.mismatch({"check": "reparsed_not_equivalent", "what": _diff_class(d), **sig0}, r,
-                   d + f"\n--- printed text:\n{text[:1500]}")
+        sig = {"check": "reparsed_not_equivalent", "what": C.op_diff(c1, c2), "cls": _value_class(module, text)}
+        sig["source"] = source
+        if "hints" in feats:
+            sig["hints"] = feats["hints"]
+        h.mismatch(sig, r, d + f"\n--- printed text:\n{text[:1500]}")
         return
     try:
         text2 = print_generic(m2)
@@ -168,6 +171,18 @@ def roundtrip(h, r, module, source, feats):
                 h.mismatch({"check": "reprint_differs_after_normalisation", **sig0}, r, _textdiff(text2, text3))
             return
         h.mismatch({"check": "reprint_differs", **sig0}, r, _textdiff(text, text2))
+
+
+def _value_class(module, text: str) -> str:
+    """Coarse class of the attribute payloads present (signature component for value changes)."""
+    from xdsl.dialects.builtin import AnyFloat, DenseIntOrFPElementsAttr
+    import re as _re
+    for o in module.walk():
+        for a in list(o.properties.values()) + list(o.attributes.values()):
+            if isinstance(a, DenseIntOrFPElementsAttr) and isinstance(a.get_element_type(), AnyFloat) \
+                    and _re.search(r"dense<[^>]*0x[0-9A-Fa-f]+", str(a)):
+                return "dense_float_printed_in_hex"
+    return "-"
 
 
 def _diff_class(d: str) -> str:
@@ -224,6 +239,12 @@ def run_corpus(h, r):
     from vt.run import quiet
     ch = corpus.chunks()
     rel, idx, text = ch[r["chunk"] % len(ch)]
+    if isinstance(r.get("file"), str) and "#" in r["file"]:
+        # saved recipes name the chunk, so that they survive changes of the corpus
+        frel, _, fidx = r["file"].rpartition("#")
+        for c in ch:
+            if c[0] == frel and str(c[1]) == fidx:
+                rel, idx, text = c
     module = corpus.parse_chunk(text)
     if module is None:
         h.discard("chunk_rejected")
